@@ -54,6 +54,8 @@ class Monitor:
             off = 'wrongkind'
         if extra and extra.startswith('export-raises'):
             off += '+export-raises'
+            if extra.endswith('+previous-element-ignored'):
+                off += '+previous-element-ignored'
         pg = 'wire' if path == 'wire' else 'drv'
         key = f'C01/{clause}/{pg}/{tk}/{off}'
         self.pending = (key, f'{clause} on {path} path: {tk} offered {off} {extra or ""}', case)
@@ -157,7 +159,11 @@ class Monitor:
             r.count('oracle_sound')
             case['result'] = repr(res)[:300]
             where = refdt.first_nonmember(di, refdt.to_wire_lenient(di, B.plain(res)), limits)
-            self.viol('out-of-set', path, di, cand, where or lp, 'export-raises-' + type(ex).__name__, case)
+            extra = 'export-raises-' + type(ex).__name__
+            if unmerged_although_partner(di, B.plain(res), prev_w):
+                # another mechanism than the listed one (no element to merge with): the element it replaces was ignored
+                extra += '+previous-element-ignored'
+            self.viol('out-of-set', path, di, cand, where or lp, extra, case)
             return
         case['result'] = e
         r.count('oracle_sound')
@@ -185,6 +191,23 @@ class Monitor:
                 self.viol('not-idempotent', path, di, cand, lp, '', case)
         except Exception as ex:
             self.viol('not-idempotent', path, di, cand, lp, type(ex).__name__, case)
+
+
+def unmerged_although_partner(di, val, prev):
+    """val (plain result) holds a struct lacking a member that the struct at the same position of the previous value has"""
+    t = di['type']
+    if t == 'struct' and isinstance(val, dict):
+        if isinstance(prev, dict) and any(k not in val and k in prev for k in di['members']):
+            return True
+        # (below a struct nothing is merged: the members of a struct are validated without their previous value - that is
+        # the listed finding; the previous value is handed on through arrays and tuples only)
+        return any(unmerged_although_partner(m, val[k], None) for k, m in di['members'].items() if k in val)
+    if t == 'array' and isinstance(val, (list, tuple)):
+        return any(unmerged_although_partner(di['members'], v, prev[i] if isinstance(prev, (list, tuple)) and i < len(prev) else None) for i, v in enumerate(val))
+    if t == 'tuple' and isinstance(val, (list, tuple)):
+        return any(unmerged_although_partner(m, v, prev[i] if isinstance(prev, (list, tuple)) and i < len(prev) else None)
+                   for i, (m, v) in enumerate(zip(di['members'], val)))
+    return False
 
 
 def gen_cases(rng, n):
